@@ -16,7 +16,7 @@ T = {
  "C04": ("lattice pipeline: normals vs spec normal -N/|N|, closure and divergence identities per cell on every embedding; pipeline F: the same identities on seeded float inputs under masks (tess recorder)",
          "identities hold up to the stated tolerance", "DESIGN.md §5 C04"),
  "C05": ("lattice pipeline in release AND dev profile on the degenerate families the lattice consists of (points on box faces/edges/corners, collinear, coplanar, co-spherical): no panic, finite, C01-C04 comparisons; every recorded clip decision validated against the exact Side sign by VCellTrace",
-         "failures whose recorded history splits an edge lying in the new plane are the open known finding F2", "DESIGN.md §5 C05"),
+         "failures whose recorded history splits an edge lying in the new plane are the open known finding F2; failures on inputs with generators closer than 1e-7 of the box (or three mutually closer than 1e-4) are the open known finding F11; the tie breaker (exact predicate) is replayed on TLC's vectors in both profiles", "DESIGN.md §5 C05"),
  "C06": ("VCell periodic (all 3^d images as candidates; PeriodicNoWalls, ShiftLattice) -> replay; second route: real non-periodic build of the replicated set, central block; bitwise k*width shifts; translation invariance",
          "periodic lattices up to period 4 (integer range of TLC)", "DESIGN.md §5 C06"),
  "C07": ("VTess model-checked over all masks; every masked run validated by VTessTrace.MaskChecks against the full run of the same input (bit tokens for cells, plane signatures, per-cell face sets) and re-executed face rule",
@@ -30,11 +30,11 @@ T = {
  "C13": ("VTess (SymIsNonSymMinusTreated, SymEqualsStored); VTessTrace.IntegralChecks: dump tokens of both routes equal, integral lists vs stored values in order",
          "bit tokens compared as opaque strings", "DESIGN.md §5 C13"),
  "C16": ("VCell.SafetyBound model-checked; lattice replay: reported radius >= 2*exact distance to farthest point and >= distance to every neighbour with a face; every recorded termination validated by VCellTrace; pipeline F: radius vs the cell's own vertices on many-faced cells",
-         "add-a-far-generator relation not yet exercised", "DESIGN.md §5 C16"),
+         "second clause: VCell.FarIrrelevant (no lattice point beyond the safety radius can cut the finished cell) model-checked; implementation: cells rebuilt with 1..3 generators added just outside the reported safety ball, recorded and validated by VTessTrace.FarChecks (measure, face set, radius unchanged)", "DESIGN.md §5 C16"),
  "C17": ("VNN (best-first traversal of every small r-tree shape over small point sets, 3^d shifted copies, all pop orders among equal keys: LowerBound, Sorted, NoDup, SelfFirst, PrefixOfAll, Complete) model-checked; candidate streams recorded through the hook verif::nn_sequence validated by VNNTrace with exact integer distances",
-         "implementation side uses lattice inputs (incl. 10^3-point lattices, prefixes) so that TLC can recompute distances exactly", "DESIGN.md §5 C17"),
+         "implementation side uses lattice inputs so that TLC can recompute distances exactly: coarse lattices with many equidistant points, fine lattices (256..2048 per axis: uniform and clustered points in general position), 10^3-point lattices (prefixes), scales 2^-50..2^30", "DESIGN.md §5 C17"),
  "C18": ("VCycle + VCellImpl (line-by-line transcription of SimpleCycle and compute_boundary) model-checked inside the cell machine: for every reachable cell and next plane, every order of the removed vertices (exhaustive up to 6/7) and rotations: never stuck, cycle = declarative boundary (ImplOK); CLIP cases replayed through verif::clip_cell under permutations; library-built cells (up to ~90 planes) re-clipped through verif::clip_existing under permutations",
-         "orders above the exhaustive bound are sampled (cyclic shifts); ties with inexact snapping only required to give closed polytopes", "DESIGN.md §5 C18"),
+         "orders above the exhaustive bound are sampled (cyclic shifts); ties with inexact snapping only required to give closed polytopes; MCVCycleInd: try_extend / init checked as an inductive step over EVERY well-formed cycle on 6 (7) planes x every triangle; library cells include cells with 300 successful clips and old faces revisited after every gap length around 2^8 clips", "DESIGN.md §5 C18"),
  "C10": ("VPred: TLC enumerates every 5-tuple of a small grid and checks transcription of in_sphere_test_exact = 4x4 determinant = geometric definition (circumcentre, orientation), translation invariance, and the first-order transport of co-spherical tuples; VCell.QueriesInDomain for every position the builder queries; vectors replayed into the real predicate (as is, swapped, scaled up to 2^49 and translated over [0,2^52), co-spherical +-1) and the grid map probed for range and monotonicity in release and dev profile",
          "exhaustive on the small grid; the 52-bit range is reached by homogeneity and translation invariance of the determinant", "DESIGN.md §5 C10"),
  "C11": ("the VPred vectors replayed into each buildable backend (ibig, dashu, malachite, num_bigint) must give the specification's sign; tessellations of degenerate lattice inputs (exact path consulted, incl. non-tie decisions) must be bitwise equal across backends",
@@ -44,9 +44,9 @@ T = {
  "C15": ("VFaces (transcription of with_faces / sort_face_vertices) model-checked on every finished lattice cell for several storage orders (FacesOK, CcwInward exact, OrderIndependent); recorded vertex triples and faces of real cells validated by VFacesTrace (re-extraction, incidence, simple cycles, shared planes, direction, Euler, accessors); geometric clauses, discard/with_faces identity and rejection in 1D/2D checked in the harness",
          "geometric clauses numeric with tolerance; memory safety of the unchecked accessors not decided", "DESIGN.md §5 C15"),
  "C19": ("VHelpers: exact closed forms of every exported helper; TLC checks the defining equations on them for every small integer argument tuple and prints the tuples with exact results; replay under similarity embeddings and rescaled normals",
-         "irrational results compared through exact squares", "DESIGN.md §5 C19"),
+         "irrational results compared through exact squares; six similarity embeddings incl. scales 2^-30, 1e-9, 2^30 (absolute thresholds only show far from unit scale)", "DESIGN.md §5 C19"),
  "C20": ("VAux: definition of k-nearest (KnnOK) and brute-force exact minimal enclosing sphere (Exists, Unique, Contains model-checked over every small lattice point set); Space::knn results on quarter-lattice particle sets (cubic and non-cubic boxes, all k) validated by VAuxTrace with exact distances; Welzl = minimal sphere, Epos6 contains and is not smaller",
-         "knn only on lattice particle sets; sphere tolerance 1e-7", "DESIGN.md §5 C20"),
+         "VKnn: the ring search of Space::knn as a state machine (skip and termination bounds, any order within a ring) model-checked over every particle set of small non-cubic grids; knn conformance on lattice particle sets; sphere tolerance 1e-7 relative; scales 2^-30..2^30", "DESIGN.md §5 C20"),
 }
 
 checks = []
